@@ -19,7 +19,7 @@ META = {
                     "C02 contract on bin1d_vec installed underneath"],
     "deciding": ["post:spatial_magnitude_counts", "post:spatial_counts", "post:magnitude_counts", "identity:marginals", "reject:out-of-range", "history:rebind-region"],
 }
-META["added"] = "Added: events in holes / flagged-out cells as the outside event, quadtree grids from shuffled and coarse-first listings and the grid's north edge, region re-binding and in-place re-ordering histories on one catalog object, a competing region-bound magnitude grid next to an explicit mag_bins, magnitude grids built with numpy.arange / start+k*step / linspace (round-off edges) with events on the nominal decimal edges. outside events leaving the box in exactly one coordinate or on its north / east edge. single-precision magnitude columns."
+META["added"] = "Added: events in holes / flagged-out cells as the outside event, quadtree grids from shuffled and coarse-first listings and the grid's north edge, region re-binding and in-place re-ordering histories on one catalog object, a competing region-bound magnitude grid next to an explicit mag_bins, magnitude grids built with numpy.arange / start+k*step / linspace (round-off edges) with events on the nominal decimal edges. outside events leaving the box in exactly one coordinate or on its north / east edge. single-precision magnitude columns. 70000 events in one cell and bin."
 MANIFEST = {
     "technique": "runtime post-conditions (conservation, immutability) on the real catalog gridding methods at every call + brute-force reference gridding on generated catalogs incl. hostile out-of-range mixes; marginal identities and filter-equivalence checked per case",
     "level_text": "Each generated catalog/region pair is gridded by the real methods; the count array is compared entry by entry with a brute-force reference, totals and both marginals are exact integer identities, occupancy equals [count>0], each magnitude bin equals the size of the equivalent magnitude-range filter, and catalogs containing events outside the region or below the first magnitude edge must be rejected (space-magnitude) or left uncounted (magnitude histogram). Every call of the four gridding methods is also checked for conservation and for not mutating the catalog.",
@@ -405,3 +405,21 @@ def run(ctx):
                         seed=int(r.integers(0, 10 ** 9)))
         if j % 200 == 0:
             ctx.sample({"region": "cartesian" if j % 3 else "quadtree", "mag_grid": mag, "n_events": nev, "hostile": hostile})
+    if ctx.shard == 0:
+        # one cell and bin holding more events than a 16-bit counter can hold
+        from csep.core.catalogs import CSEPCatalog
+        reg = fixtures.region(2, 2, "0.1", "10", "20", magnitudes=fixtures.mag_bins("4.95", "0.1", 3))
+        nbig = 70000
+        data = numpy.zeros(nbig + 2, dtype=CSEPCatalog.dtype)
+        data["id"] = b"x"
+        data["origin_time"] = 1262304000000 + numpy.arange(nbig + 2)
+        data["longitude"], data["latitude"], data["depth"], data["magnitude"] = 10.15, 20.05, 5.0, 4.97
+        data["longitude"][-2:], data["magnitude"][-2:] = 10.05, 5.12
+        big = CSEPCatalog(data=data, region=reg)
+        rcb = {"exec": "noop", "args": {}}
+        ok, smc, tb = ctx.call(big.spatial_magnitude_counts)
+        ok2, mc, tb2 = ctx.call(big.magnitude_counts)
+        ctx.count(1)
+        if not ok or float(numpy.sum(smc)) != nbig + 2 or float(numpy.asarray(smc)[2, 0]) != nbig or (ok2 and not numpy.array_equal(numpy.asarray(smc, dtype=float).sum(axis=0), numpy.asarray(mc, dtype=float))):
+            ctx.violate("space-magnitude count array != number of events per (cell, bin)", rcb, observed=repr(smc)[:160] if not ok else {"total": float(numpy.sum(smc)), "entry": float(numpy.asarray(smc)[2, 0])},
+                        expected={"total": nbig + 2, "entry": nbig}, tags={"api": "spatial_magnitude_counts", "clause": "entries", "events_in_one_bin": nbig})
